@@ -123,12 +123,12 @@ def run(tier):
                    ("3c", 3, "P3c", (1, 1), 150), ("4b", 4, "P4b", (1, 0), 150)]
         configs_if_differs = [("2", 2, "P2", (1, 1)), ("3", 3, "P3", (1, 1))]
         specs = [
-            ("dfs2", {"progs": PROGS["P2"], "preempt": 4, "max_runs": 15000, "spur": 1, "eintr": 1, "graph": "2"}),
-            ("dfs2t", {"progs": PROGS["P2t"], "preempt": 4, "max_runs": 10000, "spur": 1, "eintr": 1, "graph": "2t"}),
-            ("dfs3", {"progs": PROGS["P3"], "preempt": 3, "max_runs": 10000, "spur": 1, "eintr": 1, "graph": "3"}),
-            ("dfs3b", {"progs": PROGS["P3b"], "preempt": 2, "max_runs": 10000, "spur": 0, "eintr": 0}),
-            ("dfs4", {"progs": PROGS["P4t"], "preempt": 2, "max_runs": 10000, "spur": 0, "eintr": 0}),
-            ("cov4", {"mode": "cover", "progs": [LAU + LAU, LAU + TAU, TAU + LAU, LAU + LAU], "runs": 6000, "spur": 1, "eintr": 1}),
+            ("dfs2", {"progs": PROGS["P2"], "preempt": 4, "max_runs": 6000, "spur": 1, "eintr": 1, "graph": "2"}),
+            ("dfs2t", {"progs": PROGS["P2t"], "preempt": 4, "max_runs": 5000, "spur": 1, "eintr": 1, "graph": "2t"}),
+            ("dfs3", {"progs": PROGS["P3"], "preempt": 3, "max_runs": 5000, "spur": 1, "eintr": 1, "graph": "3"}),
+            ("dfs3b", {"progs": PROGS["P3b"], "preempt": 2, "max_runs": 5000, "spur": 0, "eintr": 0}),
+            ("dfs4", {"progs": PROGS["P4t"], "preempt": 2, "max_runs": 5000, "spur": 0, "eintr": 0}),
+            ("cov4", {"mode": "cover", "progs": [LAU + LAU, LAU + TAU, TAU + LAU, LAU + LAU], "runs": 3000, "spur": 1, "eintr": 1}),
             ("rnd4", {"progs": [LAU + LAU, LAU + TAU, TAU + LAU, LAU + LAU], "runs": 3000, "spur": 1, "eintr": 1}),
         ]
     stress = {"threads": 4, "sections": 1500} if tier == "quick" else {"threads": 8, "sections": 10000}
